@@ -453,7 +453,9 @@ class Interp:
         if isinstance(v, SelV):
             return self.select(subst_term(v.cond, mapping), self.subst_value(v.a, mapping), self.subst_value(v.b, mapping))
         if isinstance(v, SliceRef):
-            return SliceRef(v.root, v.path, subst_term(v.start, mapping), subst_term(v.end, mapping), v.mut)
+            return SliceRef(v.root, self._subst_path(v.path, mapping), subst_term(v.start, mapping), subst_term(v.end, mapping), v.mut)
+        if isinstance(v, Ref):
+            return Ref(v.root, self._subst_path(v.path, mapping), v.mut)
         if isinstance(v, VecV):
             return VecV(self.subst_value(v.seq, mapping))
         if isinstance(v, SeqUpd):
@@ -463,6 +465,16 @@ class Interp:
         if isinstance(v, SeqLit):
             return SeqLit(tuple(self.subst_value(x, mapping) for x in v.elems))
         return v
+
+    def _subst_path(self, path, mapping):
+        out = []
+        for st in path:
+            if st[0] == 'e':
+                t2 = subst_term(st[1], mapping)
+                out.append(('i', t2[1]) if t2[0] == 'ic' else ('e', t2))
+            else:
+                out.append(st)
+        return tuple(out)
 
     def abstract(self, state, v, depth=0):
         """hashable term describing a value (dereferencing refs), for UF arguments and reports"""
